@@ -27,18 +27,18 @@ static char g_arena[1 << 21]; static std::size_t g_bump = 0;
 struct log_leaf
 {
     using is_stateful = std::true_type;
-    int id;
-    explicit log_leaf(int i = 0) : id(i) {}
+    int id; bool refuse = false;   // refuse: the composable functions fail (null / false)
+    explicit log_leaf(int i = 0, bool r = false) : id(i), refuse(r) {}
     void* take(std::size_t bytes, std::size_t al) { g_bump = (g_bump + al - 1) / al * al; if (g_bump + bytes > sizeof g_arena) g_bump = 0; void* p = g_arena + g_bump; g_bump += bytes ? bytes : 1; return p; }
     void rec(const char* op, std::size_t c, std::size_t s, std::size_t a) { char b[128]; std::snprintf(b, sizeof b, " L%d:%s:%zu:%zu:%zu", id, op, c, s, a); g_log += b; }
     void* allocate_node(std::size_t s, std::size_t a) { rec("an", 1, s, a); return take(s, a > 4096 ? 4096 : a); }
     void* allocate_array(std::size_t c, std::size_t s, std::size_t a) { rec("aa", c, s, a); return take(c * s, a > 4096 ? 4096 : a); }
     void deallocate_node(void*, std::size_t s, std::size_t a) noexcept { rec("dn", 1, s, a); }
     void deallocate_array(void*, std::size_t c, std::size_t s, std::size_t a) noexcept { rec("da", c, s, a); }
-    void* try_allocate_node(std::size_t s, std::size_t a) noexcept { rec("tan", 1, s, a); return take(s, a > 4096 ? 4096 : a); }
-    void* try_allocate_array(std::size_t c, std::size_t s, std::size_t a) noexcept { rec("taa", c, s, a); return take(c * s, a > 4096 ? 4096 : a); }
-    bool try_deallocate_node(void*, std::size_t s, std::size_t a) noexcept { rec("tdn", 1, s, a); return true; }
-    bool try_deallocate_array(void*, std::size_t c, std::size_t s, std::size_t a) noexcept { rec("tda", c, s, a); return true; }
+    void* try_allocate_node(std::size_t s, std::size_t a) noexcept { rec("tan", 1, s, a); return refuse ? nullptr : take(s, a > 4096 ? 4096 : a); }
+    void* try_allocate_array(std::size_t c, std::size_t s, std::size_t a) noexcept { rec("taa", c, s, a); return refuse ? nullptr : take(c * s, a > 4096 ? 4096 : a); }
+    bool try_deallocate_node(void*, std::size_t s, std::size_t a) noexcept { rec("tdn", 1, s, a); return !refuse; }
+    bool try_deallocate_array(void*, std::size_t c, std::size_t s, std::size_t a) noexcept { rec("tda", c, s, a); return !refuse; }
     std::size_t max_node_size() const { return 256; }
     std::size_t max_array_size() const { return std::size_t(1) << 30; }
     std::size_t max_alignment() const { return std::size_t(1) << 20; }
@@ -104,6 +104,9 @@ static int run_fwd()
     using seg_t = binary_segregator<threshold_segregatable<log_leaf>, log_leaf>;
     aligned_allocator<tracked_allocator<log_tracker, seg_t>> c12(16, tracked_allocator<log_tracker, seg_t>(log_tracker{}, make_segregator(threshold(64, log_leaf(0)), log_leaf(1))));
     thread_safe_allocator<aligned_allocator<tracked_allocator<log_tracker, log_leaf>>> c13{aligned_allocator<tracked_allocator<log_tracker, log_leaf>>(128, tracked_allocator<log_tracker, log_leaf>(log_tracker{}, log_leaf(0)))};
+    // trackers over a leaf whose composable functions fail: the tracker must stay silent
+    tracked_allocator<log_tracker, log_leaf> c14(log_tracker{}, log_leaf(0, true));
+    aligned_allocator<tracked_allocator<log_tracker, log_leaf>> c15(32, tracked_allocator<log_tracker, log_leaf>(log_tracker{}, log_leaf(0, true)));
     std::string line;
     while (std::getline(std::cin, line))
     {
@@ -133,7 +136,7 @@ static int run_fwd()
             case 1: raw_op(c1, op, cnt, size, al); break; case 2: raw_op(c2, op, cnt, size, al); break; case 3: raw_op(c3, op, cnt, size, al); break;
             case 4: raw_op(c4, op, cnt, size, al); break; case 5: raw_op(c5, op, cnt, size, al); break; case 6: raw_op(c6, op, cnt, size, al); break;
             case 7: raw_op(c7, op, cnt, size, al); break; case 8: raw_op(c8, op, cnt, size, al); break; case 9: raw_op(c9, op, cnt, size, al); break;
-            case 10: raw_op(c10, op, cnt, size, al); break; case 11: raw_op(c11, op, cnt, size, al); break; case 12: raw_op<false>(c12, op, cnt, size, al); break; case 13: raw_op(c13, op, cnt, size, al); break;
+            case 10: raw_op(c10, op, cnt, size, al); break; case 11: raw_op(c11, op, cnt, size, al); break; case 12: raw_op<false>(c12, op, cnt, size, al); break; case 13: raw_op(c13, op, cnt, size, al); break; case 14: raw_op(c14, op, cnt, size, al); break; case 15: raw_op(c15, op, cnt, size, al); break;
             }
         std::printf("%s =%s\n", line.c_str(), g_log.c_str());
     }
